@@ -110,12 +110,15 @@ Proof. vm_compute. repeat split. Qed.
 
 (* Outside the property (size < 1): the model's size-0 branches as transcribed (no theorem uses them, and
    they are not compared with Go: the harness only counts whether Go agreed), and check_case rejects every
-   case with a size below 1 whatever was observed. *)
+   case of a sized function with a size below 1 whatever was observed (Pairs/PairsFunc take no size: their
+   cases are compared as usual whatever c_size holds). *)
 Example C13_example_size_below_1 :
   chunk [1;2]%Z 0 = Panic DivByZero /\ chunk (@nil Z) 0 = Ok [] /\ windowed [1;2]%Z 0 = Ok [[];[];[]] /\
   check_case (Case FWindowed [1;2;3]%Z (-1)%Z (Ok [[];[];[];[]])) = false /\
   check_case (Case FWindowed [1;2;3]%Z (-1)%Z (Panic IndexOutOfRange)) = false /\
   check_case (Case FChunk [1;2]%Z 0%Z (Panic DivByZero)) = false /\
   check_case (Case FWindowed [1;2]%Z 0%Z (Ok [[];[];[]])) = false /\
-  check_case (Case FWindowed [1;2]%Z 1%Z (Ok [[1];[2]]%Z)) = true.
+  check_case (Case FWindowed [1;2]%Z 1%Z (Ok [[1];[2]]%Z)) = true /\
+  check_case (Case FPairs [1;2;3]%Z 0%Z (Ok [[1;2];[2;3]]%Z)) = true /\
+  check_case (Case FPairsFunc [1;2;3]%Z (-1)%Z (Ok [[1;2]]%Z)) = false.
 Proof. vm_compute. repeat split. Qed.
